@@ -17,7 +17,8 @@ import traceback
 
 def _load(prop, cond):
     import dynetx
-    assert os.path.realpath(dynetx.__file__).startswith("/repo/"), dynetx.__file__
+    repo = os.environ.get("DYNVERIF_REPO", "/repo").rstrip("/")
+    assert os.path.realpath(dynetx.__file__).startswith(repo + "/"), dynetx.__file__
     mod = importlib.import_module("dynverif.h_" + prop.lower())
     reg = mod.REG
     return mod, reg, reg.conds[cond]
@@ -166,8 +167,9 @@ def main():
             def prof(frame, event, arg):
                 if event == "call":
                     fnm = frame.f_code.co_filename
-                    if fnm.startswith("/repo/dynetx/") and "/test/" not in fnm:
-                        seen.add(fnm[len("/repo/"):] + ":" + frame.f_code.co_qualname)
+                    repo = os.environ.get("DYNVERIF_REPO", "/repo").rstrip("/")
+                    if fnm.startswith(repo + "/dynetx/") and "/test/" not in fnm:
+                        seen.add(fnm[len(repo) + 1:] + ":" + frame.f_code.co_qualname)
             for job in jobs:
                 args = job["args"]
                 models.TAGS_PATH.clear()
